@@ -134,7 +134,13 @@ func workerMain(args []string) int {
 			}
 		}
 		if i < 2 && *offset == 0 {
-			res.Sample = TraceLines(r.Steps, 40)
+			// setup prefix + the tail of the history (the property-specific part)
+			if len(r.Steps) > 36 {
+				res.Sample = append(TraceLines(r.Steps[:6], 6), "… ("+fmt.Sprint(len(r.Steps)-36)+" steps omitted)")
+				res.Sample = append(res.Sample, TraceLines(r.Steps[len(r.Steps)-30:], 30)...)
+			} else {
+				res.Sample = TraceLines(r.Steps, 40)
+			}
 		}
 		bz, _ := json.Marshal(res)
 		fmt.Fprintf(out, "RESULT %s\n", bz)
